@@ -47,6 +47,14 @@ Theorem C05_output_in_order_from_own_lines :
 Proof. intros pr ilen alen recs s. exact (emitted_prefix pr ilen alen recs s). Qed.
 Print Assumptions C05_output_in_order_from_own_lines.
 
+(* complete output: once the collector has finished normally it has emitted every record *)
+Theorem C05_output_complete :
+  forall pr ilen alen recs s,
+    reachable (wstep pr ilen alen) (w_init recs) s -> w_kpc s = KDone ->
+    rev (w_emitted s) = pairs 0 recs.
+Proof. intros pr ilen alen recs s. exact (emitted_complete pr ilen alen recs s). Qed.
+Print Assumptions C05_output_complete.
+
 (* the three tools, with the parameters read from their source *)
 Definition tool_params (order poison_first final_peek : bool) (cin cout : nat) (echo : bool) (kpol : option nat) : wparams :=
   mkP order poison_first final_peek cin cout echo kpol.
